@@ -108,3 +108,4 @@ pub proof fn lemma_lookup(ls: Map<Vec<u8>, Delta>, key: &[u8])
         axiom_vec_u8_ext(kv, the_key(ls, key@));
     }
 }
+//@ canary overlay axiom_vec_u8_key_laws(); lemma_overlay_empty(IMap::<Seq<u8>, Seq<u8>>::empty());
